@@ -14,6 +14,9 @@ modules it enumerates every payload up to a small length (and random longer ones
                   - mod_11_10 / mod_37_36 (hybrid systems): accepted iff the running checksums after the
                     first of the two characters are M/2 and M/2+1 (Props/C06.lean, *_swap_undetected_iff),
                   - mod_97_10: only swaps of two digits or two letters (different values) are claimed.
+Tiers: 'quick' = payloads up to length 3 (decimal) / 2 (base 36/37) with complete neighbourhoods;
+'thorough' = payloads up to length 5 (decimal; 4 for 0-9X and mod_97_10) / 3 (base 16/36/37), complete
+neighbourhoods below the top length and for a 25 % sample at the top length; both plus random longer words.
 * length:         the same at large lengths, including payloads near CPython's 4300-digit int() limit.
 
 `search(seed, tier)` returns {"cases", "distinct_nontrivial", "failing", "samples"}; `python c06.py`
@@ -157,10 +160,13 @@ class Search:
             elif expected:
                 self.sample(s, 'undetected swap (as characterised)', sw, True)
 
-    def exhaustive(self, s, max_len):
+    def exhaustive(self, s, max_len, top_fraction=1.0):
+        """every payload up to max_len: append-valid and uniqueness for all of them, all substitutions and
+        swaps for all of them below max_len and for a `top_fraction` sample at max_len"""
         for n in range(0, max_len + 1):
             for t in itertools.product(s.payload_alpha, repeat=n):
-                self.check_payload(s, ''.join(t))
+                full = n < max_len or top_fraction >= 1.0 or self.rnd.random() < top_fraction
+                self.check_payload(s, ''.join(t), all_neighbours=full)
 
     def random_long(self, s, count, lo, hi):
         for _ in range(count):
@@ -186,8 +192,8 @@ def schemes(rnd):
         Scheme('mod_37_36/default', mod_37_36, B36, B36, swap_rule='hybrid', max_exh=(2, 3)),
         Scheme('mod_37_36/decimal', mod_37_36, DIGITS, DIGITS, (DIGITS,), 'hybrid', max_exh=(3, 4)),
         Scheme('mod_37_36/hex', mod_37_36, HEX, HEX, (HEX,), 'hybrid', max_exh=(2, 3)),
-        Scheme('mod_97_10/digits', mod_97_10, DIGITS, DIGITS, swap_rule='kind', max_exh=(3, 5)),
-        Scheme('mod_97_10/base36', mod_97_10, B36, DIGITS, swap_rule='kind', max_exh=(2, 3)),
+        Scheme('mod_97_10/digits', mod_97_10, DIGITS, DIGITS, swap_rule='kind', max_exh=(3, 4)),
+        Scheme('mod_97_10/base36', mod_97_10, B36, DIGITS, swap_rule='kind', max_exh=(2, 2)),
     ]
     for k in range(3):
         size = rnd.randint(1, 15) * 2
@@ -239,7 +245,8 @@ def search(seed, tier='quick'):
     idx = 0 if tier == 'quick' else 1
     n_random = 150 if tier == 'quick' else 1500
     for s in all_schemes:
-        srch.exhaustive(s, s.max_exh[idx])
+        # thorough: full neighbourhoods below the top length, a 25 % sample of payloads at the top length
+        srch.exhaustive(s, s.max_exh[idx], 1.0 if tier == 'quick' else 0.25)
         srch.random_long(s, n_random // 3, 4, 12)
         srch.random_long(s, n_random // 3, 13, 40)
         srch.random_long(s, max(1, n_random // 30), 41, 300)
